@@ -61,6 +61,41 @@ def in_body(prog, node, tr: ast.Try) -> bool:
     return False
 
 
+def _noise_rebind_bypass(prog, fn, x_rebind_stmt, s_rebind_stmts, fit_call, sname):
+    """a CFG path from the X re-binding to the next fit that avoids every re-binding of
+    the noise vector, not counting the fall-through of tests that only ask whether the
+    noise vector is None / scalar."""
+    cfg = cfg_of(fn)
+    start = cfg.node_of(x_rebind_stmt).id
+    goal = cfg.node_of(fit_call).id
+    avoid = {cfg.node_of(s_).id for s_ in s_rebind_stmts}
+    benign = set()
+    for n in cfg.nodes:
+        if n.kind == "test":
+            names = {x.id for x in ast.walk(n.expr) if isinstance(x, ast.Name)} - {"np", "numpy"}
+            if names == {sname}:
+                benign.add(n.id)
+    prev = {start: None}
+    queue = [start]
+    while queue:
+        x = queue.pop(0)
+        if x == goal and x != start:
+            path = []
+            while x is not None:
+                path.append(x)
+                x = prev[x]
+            return (cfg.nodes[path[0]].stmt, cfg.describe_path(path[::-1]))
+        for y in cfg.g.successors(x):
+            if y in avoid or y in prev:
+                continue
+            labels = cfg.g[x][y]["labels"]
+            if x in benign and labels == {"F"}:
+                continue
+            prev[y] = x
+            queue.append(y)
+    return None
+
+
 def retry_consistency(ctx, prog, fit_fns, rule_id="R2"):
     ctx.rule(rule_id, "inside the retry, X, Y and the noise vector handed to the next fit are filtered through the same mask", floor=1)
     n_r2 = 0
@@ -97,7 +132,13 @@ def retry_consistency(ctx, prog, fit_fns, rule_id="R2"):
                         ctx.fail(fn, c, f"noise argument {canon(args[2])} of the retried fit is not a local that is filtered with X and Y", construct=f"s2 argument {canon(args[2])}")
                     continue
                 ms = {m for m, _ in rebinds.get(names[2], [])}
+                bypass = None
                 if ms == mx:
+                    bypass = _noise_rebind_bypass(prog, fn, rebinds[names[0]][0][1], [s_ for _m, s_ in rebinds[names[2]]], c, names[2])
+                if ms == mx and bypass:
+                    ctx.fail(fn, bypass[0], f"rows are dropped from {names[0]} and {names[1]} in the retry, but on a path to the next fit the noise vector '{names[2]}' is not filtered (the filtering statement is skipped for a reason other than '{names[2]}' being None/scalar): the next attempt aborts with a shape error",
+                             construct=f"retry: {names[2]} filter bypassed on a path", witness=bypass[1])
+                elif ms == mx:
                     ctx.ok(fn, stmt, f"{names[0]}, {names[1]}, {names[2]} all re-bound through {sorted(mx)}")
                 else:
                     ctx.fail(
@@ -207,5 +248,30 @@ def check(ctx):
                 restores = [n for n in ast.walk(h) if isinstance(n, ast.Call) and isinstance(n.func, ast.Attribute) and n.func.attr == "set_hyperparameters"]
                 ctx.check(bool(restores), fn, h, "fallback restores the previous hyperparameters", "the handler around the posterior update does not restore previous hyperparameters", construct="update handler without fallback")
 
+    ctx.rule("R4", "retry attempts start the fit from hyperparameters of the same shape as the first attempt (sibling fit calls agree)", floor=1)
+    n4 = 0
+    for fn in fit_fns:
+        calls = fit_calls(prog, fn)
+        first = [c for c in calls if kw(c, "hyp0") is not None]
+        if len(first) < 2:
+            continue
+        ref = canon(kw(first[0], "hyp0"))
+        for c in first[1:]:
+            h = kw(c, "hyp0")
+            defs = reaching_assignments(prog, fn, h.id, c) if isinstance(h, ast.Name) else [h]
+            for d in defs:
+                shp = None
+                if call_name(d) in ("np.zeros", "np.ones", "np.full", "np.empty"):
+                    a0 = kw(d, "shape") or (d.args[0] if d.args else None)
+                    if isinstance(a0, ast.Attribute) and a0.attr == "shape":
+                        shp = canon(a0.value)
+                elif call_name(d) in ("np.zeros_like", "np.ones_like", "np.full_like", "np.empty_like") and d.args:
+                    shp = canon(d.args[0])
+                if shp is None:
+                    continue
+                n4 += 1
+                ctx.check(shp == ref, fn, c, f"fallback start has the shape of {ref}", f"a retry starts the fit from an array shaped like '{shp}' while the first attempt passes '{ref}': the fallback attempt fails with a shape/index error instead of recovering", construct=f"fallback hyp0 shaped like {shp} (first attempt: {ref})")
+    if n4 == 0:
+        ctx.rules["R4"].floor = 0
     ctx.assume("implicit exceptions other than those raised inside try bodies are not modelled")
     ctx.assume("ten consecutive failures (all attempts exhausted) are outside the property's quantifier (runs of 2-4)")
